@@ -208,6 +208,8 @@ def matrix_read_rule(index, rep, rid, modules):
     for m in modules:
         for fi in index.functions_in_module(m):
             mats = [p for p in fi.all_params if "matrix" in p]
+            if fi.cls is not None and any(k.name == "CharacterMatrix" for k in index.mro(fi.cls)) and fi.name != "__getitem__":
+                mats.append("self")
             if not mats:
                 continue
             reads = [x for x in walk_no_nested(fi.node) if isinstance(x, ast.Subscript) and isinstance(x.ctx, ast.Load) and isinstance(x.value, ast.Name) and x.value.id in mats
@@ -221,15 +223,21 @@ def matrix_read_rule(index, rep, rid, modules):
                 mat, key = x.value.id, x.slice.id
                 ok = False
                 p = pm.get(x)
+                own = (mat, mat + "._taxon_sequence_map")
                 while p is not None and p is not fi.node:
-                    if isinstance(p, ast.For) and norm(p.target) == key and norm(p.iter) == mat:
+                    if isinstance(p, ast.For) and norm(p.target) == key and norm(p.iter) in own:
+                        ok = True
+                    if isinstance(p, (ast.ListComp, ast.SetComp, ast.GeneratorExp, ast.DictComp)) and any(norm(gen.target) == key and norm(gen.iter) in own for gen in p.generators):
                         ok = True
                     p = pm.get(p)
+                if not ok:
+                    # the row was stored for this very key earlier in the function
+                    ok = any(isinstance(a, ast.Assign) and any(isinstance(t, ast.Subscript) and norm(t.value) in own and norm(t.slice) == key for t in a.targets) and a.lineno <= x.lineno for a in walk_no_nested(fi.node))
                 if not ok:
                     cfg = cfg or cfg_of(fi)
                     xn = node_of_ast(cfg, x)
                     tests = [t for t in cfg.nodes if t.kind == "test" and isinstance(t.ast, ast.Compare) and len(t.ast.ops) == 1 and isinstance(t.ast.ops[0], (ast.In, ast.NotIn))
-                             and norm(t.ast.left) == key and norm(t.ast.comparators[0]) == mat]
+                             and norm(t.ast.left) == key and norm(t.ast.comparators[0]) in (mat, mat + "._taxon_sequence_map")]
                     if xn is not None and tests:
                         blocked = {(t.id, "t" if isinstance(t.ast.ops[0], ast.In) else "f") for t in tests}
                         reach = cfg.reach([cfg.entry], follow_exc=False, edge_ok=lambda s_, l, d: (s_.id, l) not in blocked)
